@@ -5,6 +5,8 @@ import (
 	"fmt"
 	"os"
 	"runtime"
+	rdebug "runtime/debug"
+	"runtime/pprof"
 	"strconv"
 
 	"verif/engine/driver"
@@ -21,7 +23,14 @@ func main() {
 	witnesses := flag.Int("witnesses", -1, "witness replays per harness")
 	debug := flag.Bool("debug", false, "debug")
 	replay := flag.String("replay", "", "replay a counterexample record natively")
+	cpuprof := flag.String("cpuprofile", "", "write cpu profile")
 	flag.Parse()
+	rdebug.SetGCPercent(800)
+	if *cpuprof != "" {
+		f, _ := os.Create(*cpuprof)
+		pprof.StartCPUProfile(f)
+		defer pprof.StopCPUProfile()
+	}
 	seed := int64(1)
 	if s := os.Getenv("VERIF_SEED"); s != "" {
 		if v, err := strconv.ParseInt(s, 10, 64); err == nil {
@@ -46,5 +55,7 @@ func main() {
 		fmt.Println("usage: gosym -prop C05 -tier quick")
 		os.Exit(2)
 	}
-	os.Exit(driver.RunProperty(cfg))
+	code := driver.RunProperty(cfg)
+	pprof.StopCPUProfile()
+	os.Exit(code)
 }
